@@ -25,8 +25,15 @@ BLOCK = 1 << 18
 COPY = 64 * 1024
 
 
-def payload(n, seed=0):
-  """Incompressible-ish deterministic bytes."""
+def payload(n, seed=0, kind='noise'):
+  """Deterministic bytes: 'noise' (incompressible-ish), 'zeros', 'zero_tail' (noise, then zeros from the middle on - a
+  database image with free pages at the end), 'zero_hole' (noise, zeros, noise)."""
+  if kind == 'zeros':
+    return bytes(n)
+  if kind == 'zero_tail':
+    return payload(n // 2, seed) + bytes(n - n // 2)
+  if kind == 'zero_hole':
+    return payload(n // 3, seed) + bytes(n // 3) + payload(n - 2 * (n // 3), seed + 1)
   out = bytearray()
   h = hashlib.sha256(b'seed%d' % seed).digest()
   while len(out) < n:
@@ -355,7 +362,7 @@ def _explore(workdir, run, final_names, complete, what, case, expect_no_network_
 def download(case):
   from fedjax.datasets import downloads
   n = case['size']
-  data = payload(n, 1)
+  data = payload(n, 1, case.get('kind', 'noise'))
   base = tempfile.mkdtemp(prefix='c19_')
   work = os.path.join(base, 'cache')
   name = 'file.bin'
@@ -399,7 +406,7 @@ def download(case):
 def decompress(case):
   from fedjax.datasets import downloads
   n = case['size']
-  data = payload(n, 2)
+  data = payload(n, 2, case.get('kind', 'noise'))
   comp = real_lzma.compress(data)
   base = tempfile.mkdtemp(prefix='c19d_')
   work = os.path.join(base, 'cache')
@@ -604,7 +611,7 @@ TIMEOUTS = {k: 1500 for k in SUBS}
 
 def plan(ctx):
   th = ctx.tier == 'thorough'
-  ctx.rule = ('download: payload sizes {0,1,block-1,block,block+1,3*block} (block=2^18); decompression: {0,1,65535,65536,'
+  ctx.rule = ('download: payload sizes {0,1,block-1,block,block+1,3*block} (block=2^18) of noise, plus all-zero / zero-tailed / zero-holed payloads; decompression: {0,1,65535,65536,'
               '200000} bytes (copy buffer 64 KiB); faults = crash and I/O error before every effect + torn writes with '
               'prefixes {0,1,n/2,n-1} of every block; BFS over cache-directory states to a fixpoint; CIFAR-100 conversion: '
               'fault at every converted client; distinct = reachable directory states; non-trivial = payload > 0')
@@ -614,6 +621,9 @@ def plan(ctx):
                       'patched to that database']
   dl = [0, 1, BLOCK - 1, BLOCK, BLOCK + 1, 3 * BLOCK] + ([2 * BLOCK, 5 * BLOCK + 7] if th else [])
   dc = [0, 1, COPY - 1, COPY, 200000] + ([COPY + 1, 3 * COPY, 500000] if th else [])
-  ctx.pmap('download', [{'size': n, 'what': 'download'} for n in dl], chunk=1)
-  ctx.pmap('decompress', [{'size': n, 'what': 'decompress'} for n in dc], chunk=1)
+  kinds = [(n, k) for k in ('zeros', 'zero_tail', 'zero_hole') for n in ((1, 200000, 3 * BLOCK) if th else (200000,))]
+  ctx.pmap('download', [{'size': n, 'what': 'download'} for n in dl] +
+           [{'size': n, 'what': 'download', 'kind': k} for n, k in kinds], chunk=1)
+  ctx.pmap('decompress', [{'size': n, 'what': 'decompress'} for n in dc] +
+           [{'size': n, 'what': 'decompress', 'kind': k} for n, k in kinds], chunk=1)
   ctx.pmap('cifar_convert', [{'split': s} for s in ('train', 'test')], chunk=1)
